@@ -77,6 +77,26 @@ impl ToRustType for Ty {
     }
 }
 
+/// `Default` can be derived for a model when it can for every field. Schemas may refer to
+/// themselves (directly or through other models): a model met again while it is being examined
+/// does not decide the answer, so the walk terminates on every schema graph.
+fn model_implements_default(name: &str, spec: &HirSpec, visiting: &mut Vec<String>) -> bool {
+    if visiting.iter().any(|v| v == name) {
+        return true;
+    }
+    let record = spec.get_record(name).expect("Model not found");
+    if matches!(record, hir::Record::Enum(_)) {
+        return false;
+    }
+    visiting.push(name.to_string());
+    let result = record.fields().all(|f| match &f.ty {
+        Ty::Model(inner) => model_implements_default(inner, spec, visiting),
+        _ => true,
+    });
+    visiting.pop();
+    result
+}
+
 impl CanDerive for Ty {
     fn implements_default(&self, spec: &HirSpec) -> bool {
         match self {
@@ -85,10 +105,7 @@ impl CanDerive for Ty {
             Ty::Float => true,
             Ty::Boolean => true,
             Ty::Array(_) => true,
-            Ty::Model(name) => spec
-                .get_record(name.as_str())
-                .expect("Model not found")
-                .implements_default(spec),
+            Ty::Model(name) => model_implements_default(name.as_str(), spec, &mut Vec::new()),
             Ty::Unit => true,
             Ty::Any(_) => true,
             Ty::Date { .. } => true,
